@@ -103,11 +103,13 @@ def run_item(item):
             want = mk_str(pieces)
             ok = isinstance(val, (str, SymStr))
             try:
-                eq = I.str_eq(val, want) if ok else False
+                parts = I.str_eq_parts(val, want) if ok else [False]
             except Unsupported as ex:
                 res["inconclusive"].append("ENCODING-GAP %s: %s" % (item["name"], ex))
                 return
-            ob.prove(zbool(I.truth(eq)) if not isinstance(eq, bool) else eq, "rendered string == expected markup (space every 10, <br> every 50, palette colour per residue) (%s)" % item["name"], cex)
+            for k_, eq in enumerate(parts):
+                t_ = I.truth(eq)
+                ob.prove(zbool(t_) if not isinstance(t_, bool) else t_, "rendered string == expected markup, piece %d of %d (space every 10, <br> every 50, palette colour per residue) (%s)" % (k_ + 1, len(parts), item["name"]), cex)
             c = cex(m)
             if len(res["samples"]) < 2:
                 res["samples"].append(dict(item=item["name"], witness=dict(seq=c["seq"]), obligation="HTML string equals the expected markup for all sequences and all valid palettes"))
@@ -144,6 +146,7 @@ def run_item(item):
         sp = I.call(SequenceParameters, [s], {})
         sp.SeqObj.aminoAcidColorMap = dict(pal)
         holder["sp"] = sp
+        I.snapshot_hook = lambda: dict(sp.SeqObj.aminoAcidColorMap) if isinstance(sp.SeqObj.aminoAcidColorMap, dict) else sp.SeqObj.aminoAcidColorMap
         I.call(sp.set_HTMLColorResiduePalette, [ud], {})
         return sp
 
@@ -157,7 +160,7 @@ def run_item(item):
 
     def on_raise(ob, exc, m):
         ob.prove(z3.Not(acceptable), "rejected => the dictionary is not a total mapping onto the 17 colour names", cex)
-        t = same_palette(I, holder["sp"].SeqObj.aminoAcidColorMap, pal)
+        t = same_palette(I, getattr(exc, "_symx_snapshot", None) if hasattr(exc, "_symx_snapshot") else holder["sp"].SeqObj.aminoAcidColorMap, pal)
         ob.prove(zbool(t) if not isinstance(t, bool) else t, "a rejected dictionary leaves the palette unchanged", cex)
 
     def on_return(ob, sp, m):
